@@ -43,6 +43,40 @@ class Obj:
         return "Obj(a=%r, b=%r)" % (self.a, self.b)
 
 
+class AnyEq:
+    """compares equal to everything (like unittest.mock.ANY)"""
+
+    def __eq__(self, other):
+        return True
+
+    def __ne__(self, other):
+        return False
+
+    __hash__ = None
+
+    def __repr__(self):
+        return "<ANY>"
+
+
+class NoTruthEq:
+    """comparing it gives an object without a truth value (like an array)"""
+
+    class _Cmp:
+        def __bool__(self):
+            raise ValueError("The truth value of an element-wise comparison is ambiguous")
+
+    def __eq__(self, other):
+        return NoTruthEq._Cmp()
+
+    def __ne__(self, other):
+        return NoTruthEq._Cmp()
+
+    __hash__ = None
+
+    def __repr__(self):
+        return "<ARRAY>"
+
+
 class Money:
     """A value whose default presentation (format(m, "")) differs from str(m) and from repr(m)."""
 
@@ -476,6 +510,10 @@ def tick(v):
 def special_value(v):
     if not isinstance(v, str):
         return v
+    if v == "ANYEQ":
+        return AnyEq()
+    if v == "NOTRUTHEQ":
+        return NoTruthEq()
     if v == "MONEY":
         return Money(12.5, "EUR")
     if v == "GETJOB":
